@@ -10,8 +10,8 @@ from impl import parse_scope
 from framework import Case
 
 PROP = "C05"
-GENERATED = ['ParserTables', 'OpSemantics', 'EvalLoop', 'SrcParser', 'TokLoop', 'DimFlags', 'ParseHelpers', 'ParseLoop']  # generated files this check's tie depends on
-LEAN_MODULES = ["Properties.C05", "Properties.Tables", "Properties.CoreEval", "Properties.Prov.Parser", "Properties.CoreTok", "Properties.CoreParse", "Properties.CoreParseLoop", "Properties.CoreExpr"]
+GENERATED = ['ParserTables', 'OpSemantics', 'EvalLoop', 'SrcParser', 'TokLoop', 'DimFlags', 'ParseHelpers', 'ParseLoop', 'ShapeLoop', 'Core', 'DtypeTables']  # generated files this check's tie depends on
+LEAN_MODULES = ["Properties.C05", "Properties.Tables", "Properties.CoreEval", "Properties.Prov.Parser", "Properties.CoreTok", "Properties.CoreParse", "Properties.CoreParseLoop", "Properties.CoreExpr", "Properties.CoreShape", "Properties.Core"]
 THEOREMS: list[str] = []  # filled from Properties/C05.lean by the registry (see checks/registry.py)
 
 RULE = (
